@@ -43,7 +43,8 @@ pub fn scenario_from_json(w: &Json) -> Option<Scenario> {
   if OPS_TRIGGER.contains(&op.as_str()) && scripts.len() != 2 {
     return None;
   }
-  if op == "flat_map" && scripts.len() != 1 {
+  // flat_map: one outer source, or two merged ones (outer items then arrive from two threads)
+  if op == "flat_map" && scripts.len() > 2 {
     return None;
   }
   // unique items, well-formed scripts
@@ -111,7 +112,8 @@ pub fn run_scenario(sc: &Scenario, cfg: RunCfg) -> Ran {
       "switch_on_next" => inputs[0].switch_on_next(inputs[1].clone()),
       "flat_map" => {
         let (il, hs) = (il2.clone(), handles.clone());
-        inputs[0].flat_map(move |x: Val| {
+        let outer = if inputs.len() == 1 { inputs[0].clone() } else { inputs[0].merge(&inputs[1..]) };
+        outer.flat_map(move |x: Val| {
           let log = Arc::new(Mutex::new(SrcLog::default()));
           il.lock().unwrap().push((x.int(), log.clone()));
           threaded_source("inner", inner_script(x.int()), log, check, vec![], hs.clone())
@@ -516,7 +518,7 @@ impl Family for C11 {
   fn gen(&self, rng: &mut Rng, tier: Tier) -> Json {
     let maxlen = if tier == Tier::Quick { 3 } else { 4 };
     let op = *rng.pick(OPS_MULTI);
-    let n = if op == "flat_map" { 1 } else { rng.range(2, 3) as usize };
+    let n = if op == "flat_map" { rng.range(1, 2) as usize } else { rng.range(2, 3) as usize };
     let zip_len = rng.below(maxlen + 1);
     let mut inputs = gen_scripts(rng, n, maxlen, |_, _| Some(Step::C));
     if op == "zip" {
@@ -581,7 +583,7 @@ impl Family for C11 {
       }
       // total the operator would deliver without take
       let all_inputs: Vec<Vec<i64>> = if sc.op == "flat_map" {
-        let outer = script_items(&sc.scripts[0]);
+        let outer: Vec<i64> = sc.scripts.iter().flat_map(|s| script_items(s)).collect();
         outer.iter().map(|x| script_items(&inner_script(*x))).collect()
       } else {
         sc.scripts.iter().map(script_items).collect()
